@@ -26,7 +26,8 @@ import vlib
 import scopelib as sl
 import tdgen
 
-THEOREMS = ["C05_block_scopes_end", "C05_locals_do_not_leak", "C05_out_of_scope_partial", "C05_unresolved_reported"]
+THEOREMS = ["C05_block_scopes_end", "C05_locals_do_not_leak", "C05_out_of_scope_partial", "C05_unresolved_reported",
+            "C05_resolution_values_partial"]
 TRUSTED = [
     "Coq 8.16.1 kernel (coqc; vm_compute only in the non-vacuity Examples); no axioms",
     "statement of the declarative resolver coq/model/ScopeSpec.v (read against the TableGen scoping rules; "
@@ -204,6 +205,17 @@ def run(ctx):
                 ctx.known(d["key"], known[d["key"]])
             else:
                 ctx.violation(desc, {"property": "C05", "workspace": dws[DIRECTED.index(d)], "directed": d})
+                found = True
+    # variable-binding operators over a sequence of unknown type: the variable used in the body resolves
+    unk = [c for c in tdgen.unknown_operand_cases() if c["uses"]]
+    for c, o in zip(unk, sl.impl(bindir, [{"files": x["files"], "root": x["root"]} for x in unk])):
+        at = sl.impl_at(o, "/w/main.td")
+        for (lo, hi, dlo, dhi) in c["uses"]:
+            if at[lo][0] != ("/w/main.td", dlo, dhi):
+                ctx.violation("%s over an operand of unknown type: the variable used in the body at %d has "
+                              "definition %r, expected [%d,%d)" % (c["op"], lo, at[lo][0], dlo, dhi),
+                              {"property": "C05", "workspace": {"files": c["files"], "root": c["root"]},
+                               "directed": {"use": [lo, hi], "decl": [dlo, dhi], "key": "unknown-sequence"}})
                 found = True
     if broken_corr:
         fails.append({"kind": "correspondence", "file": "model Indexer.v vs crates/ide/src/index.rs",
